@@ -152,11 +152,13 @@ where
     fn drop(&mut self) {
         if let Some(shard) = self.shard.take() {
             let mut shard = shard.write();
+            // Only remove the queue entry if it still refers to this very piece: a newer version of the key may
+            // have replaced it in the meantime and must stay visible until its own write completes.
             match shard.entry(self.hash(), |p| self.key() == p.key(), |p| p.hash()) {
-                HashTableEntry::Occupied(o) => {
+                HashTableEntry::Occupied(o) if o.get().ptr_eq(&self.piece) => {
                     o.remove();
                 }
-                HashTableEntry::Vacant(_) => {}
+                HashTableEntry::Occupied(_) | HashTableEntry::Vacant(_) => {}
             }
         }
     }
